@@ -436,6 +436,55 @@ func scanOutDeg(c *core.Ctx) []ob {
 					continue
 				}
 				// unexported helper: every caller resizes the argument to a degree free of it
+				var outAccounted func(cd fdecl, v types.Object, depth int) bool
+				outAccounted = func(cd fdecl, v types.Object, depth int) bool {
+					cfn, ok := cd.pk.TypesInfo.Defs[cd.fd.Name].(*types.Func)
+					if !ok || depth > 3 || len(callers[cfn]) == 0 {
+						return false
+					}
+					csig := cfn.Type().(*types.Signature)
+					idx := -1
+					for q := 0; q < csig.Params().Len(); q++ {
+						if csig.Params().At(q) == v {
+							idx = q
+						}
+					}
+					if idx < 0 {
+						return false
+					}
+					for _, cl := range callers[cfn] {
+						if idx >= len(cl.call.Args) {
+							return false
+						}
+						arg := unparen(cl.call.Args[idx])
+						if c2, isC := arg.(*ast.CallExpr); isC {
+							if s2, isS := unparen(c2.Fun).(*ast.SelectorExpr); isS && s2.Sel.Name == "El" {
+								arg = unparen(s2.X)
+							}
+						}
+						ao := identObj(cl.d.pk.TypesInfo, arg)
+						if ao == nil {
+							return false
+						}
+						isParam := false
+						if f2, ok := cl.d.pk.TypesInfo.Defs[cl.d.fd.Name].(*types.Func); ok {
+							s2 := f2.Type().(*types.Signature)
+							for q := 0; q < s2.Params().Len(); q++ {
+								if s2.Params().At(q) == ao {
+									isParam = true
+								}
+							}
+						}
+						if !isParam || resizedFree(cl.d.pk.TypesInfo, cl.d.fd, ao, cl.call) || degreeGuarded(cl.d.pk.TypesInfo, cl.d.fd, ao) {
+							continue
+						}
+						if !cl.d.fd.Name.IsExported() && outAccounted(cl.d, ao, depth+1) {
+							continue
+						}
+						return false
+					}
+					return true
+				}
 				cs := callers[d.fn]
 				allOK := len(cs) > 0 && !d.fd.Name.IsExported()
 				bad := ""
@@ -465,6 +514,9 @@ func scanOutDeg(c *core.Ctx) []ob {
 						if !isParam {
 							continue
 						}
+					}
+					if ao != nil && !(resizedFree(cl.d.pk.TypesInfo, cl.d.fd, ao, cl.call) || degreeGuarded(cl.d.pk.TypesInfo, cl.d.fd, ao)) && !cl.d.fd.Name.IsExported() && outAccounted(cl.d, ao, 0) {
+						continue // the caller is itself an unexported helper handing its own parameter on: its callers decide
 					}
 					if ao == nil || !(resizedFree(cl.d.pk.TypesInfo, cl.d.fd, ao, cl.call) || degreeGuarded(cl.d.pk.TypesInfo, cl.d.fd, ao)) {
 						allOK = false
